@@ -47,13 +47,14 @@ def classify_detail(detail: str) -> int:
 
 
 class Ctx:
-    __slots__ = ("roots", "process", "create", "kind", "ovr", "ents", "top_cls")
+    __slots__ = ("roots", "process", "create", "kind", "ovr", "ents", "top_cls", "udepth", "direct")
 
-    def __init__(self, roots, process, create, kind, ovr, ents, top_cls):
+    def __init__(self, roots, process, create, kind, ovr, ents, top_cls, udepth=0, direct=False):
         self.roots, self.process, self.create, self.kind, self.ovr, self.ents, self.top_cls = roots, process, create, kind, ovr, ents, top_cls
+        self.udepth, self.direct = udepth, direct     # enclosing unions; is this schema itself a member of the innermost one
 
     def evolve(self, **kw):
-        c = Ctx(self.roots, self.process, self.create, self.kind, self.ovr, self.ents, self.top_cls)
+        c = Ctx(self.roots, self.process, self.create, self.kind, self.ovr, self.ents, self.top_cls, self.udepth, self.direct)
         for k, v in kw.items():
             setattr(c, k, v)
         return c
@@ -139,7 +140,10 @@ class Abs:
         if isinstance(rp, ParseError):
             self.emit(prog, ("fail", CAT["intrinsic"]), ctx)
             return None
-        recur = (not ctx.create) and ctx.ovr == 0 and ctx.top_cls is not None and data.ref.endswith(f"/{ctx.top_cls}")
+        # _process_models: an error whose `data` is a Reference ending in /<class being processed> is final ("Recursive allOf")
+        # the error keeps this Reference as data when no union replaces it, or when it is a direct member of the only union above
+        keeps = ctx.udepth == 0 or (ctx.udepth == 1 and ctx.direct)
+        recur = (not ctx.create) and keeps and ctx.top_cls is not None and data.ref.endswith(f"/{ctx.top_cls}")
         self.emit(prog, ("need", kind, self.nid(rp), list(ctx.roots), self.nid(name) if name is not None else 0, recur), ctx)
         return rp
 
@@ -178,7 +182,7 @@ class Abs:
             if data.items:
                 items.append(data.items)
             inner = items[0] if len(items) == 1 else oai.Schema(anyOf=items)
-            self.walk(f"{name}_item", inner, ctx.evolve(kind="item"), parent_name, prog)
+            self.walk(f"{name}_item", inner, ctx.evolve(kind="item", direct=False), parent_name, prog)
             return "list"
         if data.type == oai.DataType.OBJECT or data.allOf or (data.type is None and data.properties):
             return self.model(name, data, ctx, parent_name, prog, top)
@@ -222,9 +226,9 @@ class Abs:
         if isinstance(data.type, list):
             for t in data.type:
                 members.append(data.model_copy(update={"type": t, "default": None}))
-        uctx = ctx.evolve(roots=[], process=True, kind="union_member", ovr=CAT["union"])
+        uctx = ctx.evolve(roots=[], process=True, kind="union_member", ovr=CAT["union"], udepth=ctx.udepth + 1)
         for i, m in enumerate(members):
-            self.walk(f"{name}_type_{i}", m, uctx, parent_name, prog)
+            self.walk(f"{name}_type_{i}", m, uctx.evolve(direct=True), parent_name, prog)
         if data.default is not None:
             self.imprecise.append(f"default on a union at {name}")
         return "union"
@@ -245,7 +249,7 @@ class Abs:
         entry = {"name": self.nid(name), "cls": c, "roots": model_roots, "prog": []}
         if ctx.process:
             # processed on the spot: the body's instructions run here (with this context's error override) ...
-            body_ctx = ctx.evolve(roots=model_roots, process=True, kind="prop", top_cls=ctx.top_cls if ctx.top_cls is not None else str(ci.name))
+            body_ctx = ctx.evolve(roots=model_roots, process=True, kind="prop", direct=False, top_cls=ctx.top_cls if ctx.top_cls is not None else str(ci.name))
             body = []
             self.body(data, str(ci.name), body_ctx, body)
             prog.extend(body)
